@@ -30,6 +30,28 @@ def cases(draw, thorough=False, heavy=False):
     return cf, specs, nums, plan
 
 
+@st.composite
+def multi_cases(draw, thorough=False):
+    """2-3 sequences for one stream. Later sequences are often *siblings* of the first: same transform and slice
+    parameters (wavelets, depths, slice counts, fragment size, budget) but other video parameters (picture size, chroma
+    format, depths) and picture coding mode -- anything a reader keeps from one sequence must not leak into the next."""
+    from vc2_conformance.codec_features import CodecFeatures
+
+    first = draw(cases(thorough=thorough))
+    parts = [first]
+    for _ in range(draw(st.sampled_from([1, 1, 2]))):
+        if draw(st.sampled_from([True, True, False])):
+            cf0 = first[0]
+            vp, pcm = draw(G.video_parameters(max_size=20 if not thorough else 32, max_depth=12 if not thorough else 16))
+            cf = CodecFeatures(cf0, video_parameters=vp, picture_coding_mode=pcm)
+            fields = pcm == PictureCodingModes.pictures_are_fields
+            specs = draw(P.picture_specs(1, 2, even=fields))
+            parts.append((cf, specs, draw(P.picture_numbers(len(specs), fields)), draw(R.repack_plan())))
+        else:
+            parts.append(draw(cases(thorough=thorough)))
+    return parts
+
+
 def case_json(cf, specs, nums, plan):
     return {"config": G.config_json(cf), "specs": [list(s) for s in specs], "pic_nums": nums, "plan": plan}
 
